@@ -292,7 +292,14 @@ func c07markGen(r *rand.Rand, thorough bool, emit func(c, cat string)) {
 			}
 			as = append(as, c07render(r, v))
 		}
-		for _, x := range rs {
+		look := rs
+		if manyLabels && len(rs) > 260 {
+			// the label table is filled in file order: look up ranges whose label is the 257th, 258th, … and the last
+			// ones of the file first, then the first ones (C07-m12: an 8-bit label index wraps to the labels of the
+			// first lines)
+			look = append([]c07range{rs[256], rs[257], rs[len(rs)-1], rs[len(rs)-2], rs[255]}, rs[:2]...)
+		}
+		for _, x := range look {
 			if len(as) > 40 {
 				break
 			}
